@@ -332,7 +332,47 @@ func c07Run(sc *core.Scenario, keepLog bool, p *c07Pass) *core.Result {
 				id := u.Conn.NewMessageID()
 				parsed, _ := imap.NewParsedMessage(g.Bytes)
 				u.Conn.RememberLiteral(id, g.Bytes, imap.NewFlagSet(), world.SimStart)
-				upd = imap.NewMessagesCreated(false, &imap.MessageCreated{Message: imap.Message{ID: id, Flags: imap.NewFlagSet(), Date: world.SimStart}, Literal: g.Bytes, MailboxIDs: []imap.MailboxID{rid}, ParsedMessage: parsed})
+				batch := []*imap.MessageCreated{{Message: imap.Message{ID: id, Flags: imap.NewFlagSet(), Date: world.SimStart}, Literal: g.Bytes, MailboxIDs: []imap.MailboxID{rid}, ParsedMessage: parsed}}
+				if abs(opAct.Arg(4))%2 == 1 {
+					// the batch also restates a message the server has already (a sync overlapping
+					// the previous one): whatever happens to the batch, that message stays
+					var known []string
+					for kid := range u.Conn.Msgs {
+						if kid != id {
+							known = append(known, string(kid))
+						}
+					}
+					sort.Strings(known)
+					for _, kid := range known {
+						lit := u.Conn.Msgs[imap.MessageID(kid)].Literal
+						marker := gen.MarkerOf(lit)
+						var in imap.MailboxID
+						for _, b := range after.Boxes {
+							for _, mm := range b.Members {
+								if mm.Obj.Marker == marker {
+									for bid, nm := range u.Conn.MboxNames {
+										if strings.Join(nm, "/") == b.Name {
+											in = bid
+										}
+									}
+								}
+							}
+						}
+						if in == "" {
+							continue
+						}
+						kp, _ := imap.NewParsedMessage(lit)
+						restated := &imap.MessageCreated{Message: imap.Message{ID: imap.MessageID(kid), Flags: imap.NewFlagSet(), Date: world.SimStart}, Literal: lit, MailboxIDs: []imap.MailboxID{in}, ParsedMessage: kp}
+						if abs(opAct.Arg(4))%4 == 1 {
+							batch = append([]*imap.MessageCreated{restated}, batch...)
+						} else {
+							batch = append(batch, restated)
+						}
+						e.St.Probes["created_batch_restates_known_message"]++
+						break
+					}
+				}
+				upd = imap.NewMessagesCreated(false, batch...)
 				o, _ := model.NewObj(g.Marker, g.Bytes, nil)
 				after.Boxes[box.Name].Add(o, false)
 			default:
